@@ -7,8 +7,6 @@ Driver for C08.  Case line:
 * nsecs   : `,`-separated `owner/next/types` with types `+`-separated codes or `-`
 
 Answer: `secure` / `insecure` / `bogus` / `indeterminate`.
-
-  cls <same fields>   →  the known-deviation class of the input (`Nsec.classify`) or `-`
 -/
 import HickoryVerif.Drv.Proto
 import HickoryVerif.Model.Nsec
@@ -56,14 +54,6 @@ def handle (toks : List String) : Option String :=
     let ans ← parseList parseAns "," ans
     let nsecs ← parseList parseNsec "," nsecs
     pure (showProof (Nsec.verifyNsec q qt soa rc ans nsecs))
-  | ["cls", q, qt, soa, rc, ans, nsecs] => do
-    let q ← parseName q
-    let qt ← qt.toNat?
-    let soa ← (if soa == "-" then some none else (parseName soa).map some)
-    let rc ← rc.toNat?
-    let ans ← parseList parseAns "," ans
-    let nsecs ← parseList parseNsec "," nsecs
-    pure ((Nsec.classify q qt soa rc ans nsecs).getD "-")
   | _ => none
 
 def step (s : State) (toks : List String) : State × String :=
